@@ -268,7 +268,7 @@ func splitDischarge(o *Obligation, dir string, timeoutS int, focusOnly bool) (So
 		if len(o.PC) > 40 {
 			of := o2
 			of.Focus = true
-			if r := quickSolve(buildQuery(&of, true, false), dir, o.Name+"-"+tag+"-focus", min(15, timeoutS)); r.Result == "unsat" {
+			if r := quickSolve(buildQuery(&of, true, false), dir, o.Name+"-"+tag+"-focus", timeoutS); r.Result == "unsat" {
 				r.Solver += "(focused)"
 				return r
 			}
